@@ -308,6 +308,8 @@ def run_assign(case):
             S = [("a[t]=v", lambda a: a.__setitem__(idx, rhs) if not cast else a.put(idx, rhs, cast=True), False),
                  ("put(t, v)", lambda a: a.put(idx, rhs, **kw), False),
                  ("put(t, v, inplace=False)", lambda a: a.put(idx, rhs, inplace=False, **kw), True),
+                 # the full documented parameter order put(indices, values, axis, indexing, tol, broadcast, cast, inplace), all given by position
+                 ("put(t, v, 0, None, None, None, cast, False)", lambda a: a.put(idx, rhs, 0, None, None, None, bool(cast), False), True),
                  ("put({dim: i}, v)", lambda a: a.put(dd_arg, rhs, **kw), False),
                  ("a[{dim: i}]=v", lambda a: a.__setitem__(dd_arg, rhs) if not cast else a.put(dd_arg, rhs, cast=True), False),
                  ("put({dim: i}, v, inplace=False)", lambda a: a.put(dd_arg, rhs, inplace=False, **kw), True),
